@@ -524,6 +524,15 @@ def runtime_layer(ctx):
                  for _f in range(rng.randint(1, 4))]
         cases.append(core.fmt_case([60000, nk], progs,
                                    core.random_sched(rng, nk, rng.randint(30, 2000), rng.choice([0, 1, 2, 3, 3]))))
+    # one kind of suspension directly after another in the same fiber (descriptor wait ended by close, channel and
+    # signal waits, multi-signal waits, sleeps, joins): whatever one wait leaves behind in the fiber (scratch word,
+    # queue node, state) is what the next one starts from
+    for _ in range(2 * n):
+        nk = rng.choice([2, 3, 3, 4])
+        progs = [[(rng.choice([12, 12, 12, 13, 14, 13, 14, 19, 20, 19, 20, 26, 18, 10, 9, 1]), rng.randint(0, 1))
+                  for _ in range(rng.randint(2, 6))] for _f in range(rng.randint(2, 5))]
+        cases.append(core.fmt_case([60000, nk], progs,
+                                   core.random_sched(rng, nk, rng.randint(30, 2500), rng.choice([0, 1, 2, 3, 3]))))
     impl = core.run_sharded([exe], cases, timeout=900)
     bad = 0
     for c, line in zip(cases, impl):
